@@ -136,7 +136,12 @@ def _b_body(d, i, x, style):
         kw['include'] = conv(inc)
     if exc is not None:
         kw['exclude'] = conv(exc)
+    full_exp = D.expected('ekern')
+    pre = kp.dumps(doc, encoding=kp.Encoding.eKern, spine_types=heads)            # unfiltered export before ...
     got = kp.dumps(doc, encoding=kp.Encoding.eKern, spine_types=heads, **kw)
+    post = kp.dumps(doc, encoding=kp.Encoding.eKern, spine_types=heads)           # ... and after the filtered one
+    check(cells.parse_grid(pre) == full_exp, f'unfiltered export {cells.parse_grid(pre)} differs from the cell model {full_exp}')
+    check(post == pre, f'the unfiltered export changed after exporting with include={inc} exclude={exc}: {post!r} vs {pre!r}')
     sel = model_valid(inc, exc)
     exp = D.expected('ekern', keep=lambda name: name in sel)
     grid = cells.parse_grid(got)
